@@ -70,6 +70,11 @@ func genC42(t *Tape) *Plan {
 			if s.ver == 5 && t.Draw("c42.ackprops", 3) == 0 {
 				op.Pkt = &refcodec.Packet{}
 			}
+			if s.ver == 5 && t.Draw("c42.ackrc", 3) == 0 {
+				// a refusing acknowledgement (0x80 unspecified error / 0x87 not authorised; a PUBCOMP gets 0x92 instead):
+				// with no properties its shortest form is three bytes, packet identifier and reason code
+				op.Pkt = &refcodec.Packet{ReasonCode: []byte{0x80, 0x87}[t.Draw("c42.ackrc.which", 2)]}
+			}
 			g.add(op)
 		case 4:
 			if s.connected {
